@@ -24,7 +24,7 @@ func init() {
 		MinNontriv: 60,
 		Cases: func(tier string) int {
 			if tier == "thorough" {
-				return 40000
+				return 400000
 			}
 			return 3000
 		},
